@@ -1,0 +1,31 @@
+//go:build verif
+
+package eviction
+
+// VerifKeys returns the keys currently tracked by the LRU cache, in heap-slice order.
+// A nil entry (left behind by Flush) is reported as "<nil>".
+func (cache *CacheLRU) VerifKeys() []string {
+	res := make([]string, 0, len(cache.entries))
+	for _, e := range cache.entries {
+		if e == nil {
+			res = append(res, "<nil>")
+			continue
+		}
+		res = append(res, e.key)
+	}
+	return res
+}
+
+// VerifKeys returns the keys currently tracked by the LFU cache, in heap-slice order.
+// A nil entry (left behind by Flush) is reported as "<nil>".
+func (cache *CacheLFU) VerifKeys() []string {
+	res := make([]string, 0, len(cache.entries))
+	for _, e := range cache.entries {
+		if e == nil {
+			res = append(res, "<nil>")
+			continue
+		}
+		res = append(res, e.key)
+	}
+	return res
+}
